@@ -145,5 +145,78 @@ theorem newEntities_events (w w' : P256.World) (count : Int) (tid : BitVec 8) (h
   subst hk1
   exact ⟨e1, hno, hk2⟩
 
+/-! ### single creation with a relation target (`Builder.New(target)`, generic `MapN.New(target)`, `Exchange.NewEntity(target)`) -/
+
+variable (archAllocF : Ext → Option Nat → P256.Entity → Ext × BitVec 32)
+
+theorem newEntityTarget_locked (w : P256.World) (tid : BitVec 8) (target : P256.Entity) (comps : GoSlice (BitVec 8)) (ext : Ext)
+    (h : LockMask.isLocked (C09_LockPool.absLM w.locks) = true) :
+    P256.World.newEntityTarget archAllocF archHasComponentF archMaskF archNodeF findOrCreateF lstCompsF lstSubsF nodeHasRelationF nodeRelationF notifyF pagedGetF
+      w tid target comps ext = none := by
+  unfold P256.World.newEntityTarget
+  rw [C09_WorldLock.checkLocked_spec]
+  simp [h, bind, Option.bind]
+
+/-- the creation event of an entity created with a relation target -/
+def targetEvent (e : Ext) (arch : Option Nat) (ent : P256.Entity) (tid : BitVec 8) (comps : GoSlice (BitVec 8)) : EntityEvent :=
+  { Entity := ent, Added := archMaskF e arch, AddedIDs := comps, NewRelation := some tid,
+    EventTypes := ArcheGen.M256.subscription true false (decide ((0 : Int) < ((comps.size : Nat) : Int))) false true true,
+    OldRelation := default, RemovedIDs := default, Removed := default, OldTarget := default }
+
+/-- **whatever is delivered for `Builder.New(target)` is the creation event with RelationChanged AND TargetChanged** — also
+    for the zero target —: the hidden state after the call is the one before the notification, or the listener was
+    called exactly once, with `targetEvent` (created entity, the table's mask, the given ids, the relation component, type
+    bits `subscription(true, false, len(comps) > 0, false, true, true)`) -/
+theorem newEntityTarget_event (w w' : P256.World) (tid : BitVec 8) (target : P256.Entity) (comps : GoSlice (BitVec 8)) (ext ext' : Ext) (ent : P256.Entity)
+    (h : P256.World.newEntityTarget archAllocF archHasComponentF archMaskF archNodeF findOrCreateF lstCompsF lstSubsF nodeHasRelationF nodeRelationF notifyF pagedGetF
+      w tid target comps ext = some (w', ext', ent)) :
+    ∃ (e1 : Ext) (arch : Option Nat), ext' = e1 ∨
+      (w'.listener.isSome = true ∧ ext' = (notifyF e1 w'.listener (targetEvent archMaskF e1 arch ent tid comps)).1) := by
+  unfold P256.World.newEntityTarget at h
+  simp only [Option.bind_eq_bind, pure] at h
+  obtain ⟨_, _, hq⟩ := Option.bind_eq_some_iff.mp h
+  clear h; have h := hq; clear hq
+  obtain ⟨_, _, hq⟩ := Option.bind_eq_some_iff.mp h
+  clear h; have h := hq; clear hq
+  obtain ⟨⟨b5, w1⟩, _, hq⟩ := Option.bind_eq_some_iff.mp h
+  clear h; have h := hq; clear hq
+  dsimp only at h
+  split at h
+  · cases h
+  obtain ⟨⟨w2, e2, a2⟩, _, hq⟩ := Option.bind_eq_some_iff.mp h
+  clear h; have h := hq; clear hq
+  obtain ⟨w3, _, hq⟩ := Option.bind_eq_some_iff.mp h
+  clear h; have h := hq; clear hq
+  obtain ⟨⟨w4, e4, ent4⟩, _, hq⟩ := Option.bind_eq_some_iff.mp h
+  clear h; have h := hq; clear hq
+  obtain ⟨_, _, hq⟩ := Option.bind_eq_some_iff.mp h
+  clear h; have h := hq; clear hq
+  obtain ⟨⟨w5, e5⟩, hflag, hq⟩ := Option.bind_eq_some_iff.mp h
+  clear h; have h := hq; clear hq
+  obtain ⟨⟨w6, e6⟩, hnot, hq⟩ := Option.bind_eq_some_iff.mp h
+  simp only [Option.some.injEq, Prod.mk.injEq] at hq
+  obtain ⟨hw, he, hent⟩ := hq
+  subst hw; subst he; subst hent
+  refine ⟨e5, a2, ?_⟩
+  dsimp only at hnot
+  split at hnot
+  · rename_i hl
+    obtain ⟨b13, _, hnot⟩ := Option.bind_eq_some_iff.mp hnot
+    obtain ⟨⟨w7, e7⟩, hj, hnot⟩ := Option.bind_eq_some_iff.mp hnot
+    simp only [Option.some.injEq, Prod.mk.injEq] at hnot
+    obtain ⟨h1, h2⟩ := hnot
+    subst h1; subst h2
+    split at hj
+    · obtain ⟨_, _, hj⟩ := Option.bind_eq_some_iff.mp hj
+      simp only [Option.some.injEq, Prod.mk.injEq] at hj
+      obtain ⟨h1, h2⟩ := hj
+      subst h1
+      right
+      exact ⟨hl, h2.symm⟩
+    · simp only [Option.some.injEq, Prod.mk.injEq] at hj
+      left; exact hj.2.symm
+  · simp only [Option.some.injEq, Prod.mk.injEq] at hnot
+    left; exact hnot.2.symm
+
 end
 end Arche.Props.C11_CreateEvt
